@@ -9,7 +9,11 @@ about `t`'s old `result`; and `at_c1`/`at_c2`/`at_w10` need `hasSeq`, i.e. `bg =
 at `c1`/`c2`/`w10`.  The stronger invariant `InvS'` proved here adds
   * `bg_pc`     : a background thread is never at a client-only program counter
                   (`idle`, `c1`, `c2`, `c3`, `w0`, `w9`, `w10`);
-  * `result_ok` : without the premise `bg = false`.
+  * `result_ok` : without the premise `bg = false`, and with `(cells seq).ready = true` (so that `close()`, which
+                  only overwrites the answers of still registered, hence not ready, requests leaves it alone);
+  * `nowait_ok` : a polling thread has `bg = true` and is never in `_bg_server`'s loop;
+  * `nodata`    : at `x0` and while `raising`, the thread has no frame in hand;
+  * `eofed_ready` : a cell completed by `close()` is ready.
 It is organised as a global part `GlobOK`, a per-thread part `ThrOK` and `seq_inj`.
 -/
 namespace Rpyc.Conc.Serve
@@ -35,18 +39,20 @@ structure ThrOK (s : St) (t : Tid) (l : Loc) : Prop where
   nowait_ok : l.nowait = true → l.bg = true ∧ l.pc.bgLoop = false
   seq_issued : l.hasSeq = true → l.seq ∈ s.issued
   at_c1 : l.hasSeq = true → l.pc = .c1 → freshSeq s l.seq
-  at_c2 : l.hasSeq = true → l.pc = .c2 → s.answer l.seq = none ∧ l.seq ∉ s.outstanding
+  at_c2 : l.hasSeq = true → l.pc = .c2 → s.closed = false → s.answer l.seq = none ∧ l.seq ∉ s.outstanding
+  raising_pc : l.raising = true → l.pc.holding = true
+  nodata : l.pc = .x0 ∨ l.raising = true → l.data = none
   cb_pc : ∀ q, l.cb = some q → l.pc.completing = true
   completing : l.pc.completing = true → ∃ q f, l.cb = some q ∧ l.data = some f ∧
       f.seq = q ∧ s.popper q = some t ∧ (s.cells q).reg = false ∧ s.completions q = 0 ∧ (s.cells q).ready = false ∧
       ((l.pc = .d4 ∨ l.pc = .d5) → (s.cells q).isExc = some f.exc) ∧
       (l.pc = .d5 → (s.cells q).obj = some f.val)
-  data_answer : ∀ f, l.data = some f → s.answer f.seq = some (f.exc, f.val)
+  data_answer : ∀ f, l.data = some f → s.answer f.seq = some (f.exc, f.val) ∨ (s.cells f.seq).eofed = true
   at_w10 : l.hasSeq = true → l.pc = .w10 → (s.cells l.seq).ready = true
   result_ok : ∀ e o, l.result = some (.value e o) →
-      ∃ e' v, s.answer l.seq = some (e', v) ∧ e = some e' ∧ o = some v
+      ∃ e' v, s.answer l.seq = some (e', v) ∧ e = some e' ∧ o = some v ∧ (s.cells l.seq).ready = true
   self_dispatch : l.hasSeq = true → (s.cells l.seq).ready = true →
-      s.popper l.seq = some t → l.pc.waiting = true
+      s.popper l.seq = some t → l.pc.waiting = true ∨ l.raising = true
   dl_ttl : l.hasSeq = true → l.pc.inServe = true → l.dl = (s.cells l.seq).ttl
   wdl_le : l.pc = .zz → ∀ d, l.dl = some d → ∃ w, l.wdl = some w ∧ w ≤ max s.now d
 
@@ -58,12 +64,28 @@ structure GlobOK (s : St) : Prop where
   out_nodup : s.outstanding.Nodup
   out_unanswered : ∀ q ∈ s.outstanding, s.answer q = none ∧ q < s.seqCounter
   reg_clean : ∀ q, (s.cells q).reg = true → s.popper q = none ∧ s.completions q = 0 ∧ (s.cells q).ready = false
-  chan_answer : ∀ f ∈ s.chan, s.answer f.seq = some (f.exc, f.val)
+  chan_answer : ∀ f ∈ s.chan, s.answer f.seq = some (f.exc, f.val) ∨ (s.cells f.seq).eofed = true
+  eofed_ready : ∀ q, (s.cells q).eofed = true → (s.cells q).ready = true
   obj_answer : ∀ q v, (s.cells q).obj = some v → ∃ e, s.answer q = some (e, v)
   exc_answer : ∀ q e, (s.cells q).isExc = some e → ∃ v, s.answer q = some (e, v)
   compl_le : ∀ q, s.completions q ≤ 1
   ready_compl : ∀ q, (s.cells q).ready = true →
       s.completions q = 1 ∧ (s.cells q).obj.isSome = true ∧ (s.cells q).isExc.isSome = true
+
+theorem GlobOK.unreg_of_ready {s : St} (h : GlobOK s) {q : Seq} (hr : (s.cells q).ready = true) :
+    (s.cells q).reg = false := by
+  cases hg : (s.cells q).reg with
+  | false => rfl
+  | true => rw [(h.reg_clean q hg).2.2] at hr; cases hr
+
+theorem GlobOK.eofed_unreg {s : St} (h : GlobOK s) (q : Seq) (he : (s.cells q).eofed = true) :
+    (s.cells q).reg = false := h.unreg_of_ready (h.eofed_ready q he)
+
+theorem GlobOK.not_eofed {s : St} (h : GlobOK s) {q : Seq} (hr : (s.cells q).ready = false) :
+    (s.cells q).eofed = false := by
+  cases he : (s.cells q).eofed with
+  | false => rfl
+  | true => rw [h.eofed_ready q he] at hr; cases hr
 
 /-- the inductive strengthening of `InvS` -/
 structure InvS' (s : St) : Prop where
@@ -80,6 +102,12 @@ structure InvSX (s : St) : Prop where
   /-- `result_ok` for background threads (their `result`/`seq` are left over from an earlier call) -/
   result_bg : ∀ t e o, (s.loc t).bg = true → (s.loc t).result = some (.value e o) →
       ∃ e' v, s.answer (s.loc t).seq = some (e', v) ∧ e = some e' ∧ o = some v
+  /-- the cell behind a handed-out result is ready (hence no longer registered: `close()` leaves it alone) -/
+  result_ready : ∀ t e o, (s.loc t).result = some (.value e o) → (s.cells (s.loc t).seq).ready = true
+  /-- at `x0` and while the `EOFError` propagates the thread has no frame in hand -/
+  nodata : ∀ t, (s.loc t).pc = .x0 ∨ (s.loc t).raising = true → (s.loc t).data = none
+  /-- a cell completed by `close()` is ready -/
+  eofed_ready : ∀ q, (s.cells q).eofed = true → (s.cells q).ready = true
 
 theorem le_max_mono {a b d w : Nat} (h : a ≤ b) (hw : w ≤ max a d) : w ≤ max b d := by omega
 
@@ -101,20 +129,37 @@ theorem InvS'.toInvS {s : St} (h : InvS' s) : InvS s where
   completing t := (h.thr t).completing
   chan_answer := h.glob.chan_answer
   data_answer t := (h.thr t).data_answer
+  eofed_unreg := h.glob.eofed_unreg
+  raising_pc t := (h.thr t).raising_pc
   obj_answer := h.glob.obj_answer
   exc_answer := h.glob.exc_answer
   compl_le := h.glob.compl_le
   ready_compl := h.glob.ready_compl
   at_w10 t := (h.thr t).at_w10
-  result_ok t e o _ := (h.thr t).result_ok e o
-  self_dispatch t h1 h2 h3 := (PC.waiting_iff _).1 ((h.thr t).self_dispatch h1 h2 h3)
+  result_ok t e o _ hr := by
+    obtain ⟨e', v, a, b, c, _⟩ := (h.thr t).result_ok e o hr
+    exact ⟨e', v, a, b, c⟩
+  self_dispatch t h1 h2 h3 := by
+    rcases (h.thr t).self_dispatch h1 h2 h3 with x | x
+    · rcases (PC.waiting_iff _).1 x with y | y | y
+      · exact .inl y
+      · exact .inr (.inl y)
+      · exact .inr (.inr (.inl y))
+    · exact .inr (.inr (.inr x))
   dl_ttl t := (h.thr t).dl_ttl
   wdl_le t := (h.thr t).wdl_le
 
 theorem InvS'.toInvSX {s : St} (h : InvS' s) : InvSX s where
   bg_pc t := (h.thr t).bg_pc
   nowait_ok t := (h.thr t).nowait_ok
-  result_bg t e o _ := (h.thr t).result_ok e o
+  result_bg t e o _ hr := by
+    obtain ⟨e', v, a, b, c, _⟩ := (h.thr t).result_ok e o hr
+    exact ⟨e', v, a, b, c⟩
+  result_ready t e o hr := by
+    obtain ⟨_, _, _, _, _, d⟩ := (h.thr t).result_ok e o hr
+    exact d
+  nodata t := (h.thr t).nodata
+  eofed_ready := h.glob.eofed_ready
 
 theorem InvS'.of_InvS {s : St} (h : InvS s) (hx : InvSX s) : InvS' s where
   glob := {
@@ -125,6 +170,7 @@ theorem InvS'.of_InvS {s : St} (h : InvS s) (hx : InvSX s) : InvS' s where
     out_unanswered := h.out_unanswered
     reg_clean := h.reg_clean
     chan_answer := h.chan_answer
+    eofed_ready := hx.eofed_ready
     obj_answer := h.obj_answer
     exc_answer := h.exc_answer
     compl_le := h.compl_le
@@ -135,15 +181,27 @@ theorem InvS'.of_InvS {s : St} (h : InvS s) (hx : InvSX s) : InvS' s where
     seq_issued := h.seq_issued t
     at_c1 := h.at_c1 t
     at_c2 := h.at_c2 t
+    raising_pc := h.raising_pc t
+    nodata := hx.nodata t
     cb_pc := fun q => h.cb_pc t q
     completing := h.completing t
     data_answer := h.data_answer t
     at_w10 := h.at_w10 t
     result_ok := fun e o hr => by
+      have hd := hx.result_ready t e o hr
       cases hb : (s.loc t).bg with
-      | false => exact h.result_ok t e o hb hr
-      | true => exact hx.result_bg t e o hb hr
-    self_dispatch := fun a b c => (PC.waiting_iff _).2 (h.self_dispatch t a b c)
+      | false =>
+        obtain ⟨e', v, a, b, c⟩ := h.result_ok t e o hb hr
+        exact ⟨e', v, a, b, c, hd⟩
+      | true =>
+        obtain ⟨e', v, a, b, c⟩ := hx.result_bg t e o hb hr
+        exact ⟨e', v, a, b, c, hd⟩
+    self_dispatch := fun a b c => by
+      rcases h.self_dispatch t a b c with x | x | x | x
+      · exact .inl ((PC.waiting_iff _).2 (.inl x))
+      · exact .inl ((PC.waiting_iff _).2 (.inr (.inl x)))
+      · exact .inl ((PC.waiting_iff _).2 (.inr (.inr x)))
+      · exact .inr x
     dl_ttl := h.dl_ttl t
     wdl_le := h.wdl_le t }
   seq_inj := h.seq_inj
@@ -171,6 +229,24 @@ theorem ThrOK.nowait_false_of_bgLoop {s : St} {t : Tid} {l : Loc} (h : ThrOK s t
   | false => rfl
   | true => rw [(h.nowait_ok hn).2] at hb; cases hb
 
+theorem ThrOK.raising_false {s : St} {t : Tid} {l : Loc} (h : ThrOK s t l) (hp : l.pc.holding = false) :
+    l.raising = false := by
+  cases hr : l.raising with
+  | false => rfl
+  | true => rw [h.raising_pc hr] at hp; cases hp
+
+theorem ThrOK.raising_false_of_data {s : St} {t : Tid} {l : Loc} (h : ThrOK s t l) {f : Frame}
+    (hd : l.data = some f) : l.raising = false := by
+  cases hr : l.raising with
+  | false => rfl
+  | true => rw [h.nodata (.inr hr)] at hd; cases hd
+
+theorem ThrOK.cb_none {s : St} {t : Tid} {l : Loc} (h : ThrOK s t l) (hp : l.pc.completing = false) :
+    l.cb = none := by
+  cases hc : l.cb with
+  | none => rfl
+  | some q => rw [h.cb_pc q hc] at hp; cases hp
+
 theorem hasSeq_iff (l : Loc) : l.hasSeq = true ↔ l.bg = false ∧ l.pc ≠ .idle := by
   simp [Loc.hasSeq]
 
@@ -187,6 +263,7 @@ structure SameGlob (s s' : St) : Prop where
   issued : s'.issued = s.issued
   now : s.now ≤ s'.now
   chan : ∀ f ∈ s'.chan, f ∈ s.chan
+  closed : s'.closed = s.closed
 
 theorem SameGlob.freshSeq {s s' : St} (g : SameGlob s s') (q : Seq) : freshSeq s' q ↔ freshSeq s q := by
   simp only [Serve.freshSeq, g.cells, g.answer, g.outstanding, g.popper, g.completions]
@@ -196,12 +273,14 @@ theorem SameGlob.thr {s s' : St} (g : SameGlob s s') {u : Tid} {l : Loc} (h : Th
   nowait_ok := h.nowait_ok
   seq_issued := by simpa only [g.issued] using h.seq_issued
   at_c1 := by simpa only [g.freshSeq] using h.at_c1
-  at_c2 := by simpa only [g.answer, g.outstanding] using h.at_c2
+  at_c2 := by simpa only [g.answer, g.outstanding, g.closed] using h.at_c2
+  raising_pc := h.raising_pc
+  nodata := h.nodata
   cb_pc := h.cb_pc
   completing := by simpa only [g.cells, g.popper, g.completions] using h.completing
-  data_answer := by simpa only [g.answer] using h.data_answer
+  data_answer := by simpa only [g.answer, g.cells] using h.data_answer
   at_w10 := by simpa only [g.cells] using h.at_w10
-  result_ok := by simpa only [g.answer] using h.result_ok
+  result_ok := by simpa only [g.answer, g.cells] using h.result_ok
   self_dispatch := by simpa only [g.cells, g.popper] using h.self_dispatch
   dl_ttl := by simpa only [g.cells] using h.dl_ttl
   wdl_le := fun a d hd => by
@@ -215,7 +294,8 @@ theorem SameGlob.glob {s s' : St} (g : SameGlob s s') (h : GlobOK s) : GlobOK s'
   out_nodup := by simpa only [g.outstanding] using h.out_nodup
   out_unanswered := by simpa only [g.outstanding, g.answer, g.seqCounter] using h.out_unanswered
   reg_clean := by simpa only [g.cells, g.popper, g.completions] using h.reg_clean
-  chan_answer := fun f hf => by simpa only [g.answer] using h.chan_answer f (g.chan f hf)
+  chan_answer := fun f hf => by simpa only [g.answer, g.cells] using h.chan_answer f (g.chan f hf)
+  eofed_ready := by simpa only [g.cells] using h.eofed_ready
   obj_answer := by simpa only [g.cells, g.answer] using h.obj_answer
   exc_answer := by simpa only [g.cells, g.answer] using h.exc_answer
   compl_le := by simpa only [g.completions] using h.compl_le
@@ -254,7 +334,7 @@ def PC.FrameOK0 (p p' : PC) : Prop :=
   (p'.client = true → p.client = true) ∧ (p = .idle → p' = .idle) ∧ (p' = .c1 → p = .c1) ∧ (p' = .c2 → p = .c2) ∧
   (p' = .w10 → p = .w10) ∧ (p'.completing = p.completing) ∧
   (p' = .d4 ∨ p' = .d5 → p = .d4 ∨ p = .d5) ∧ (p' = .d5 → p = .d5) ∧ (p' = .zz → p = .zz) ∧
-  (p'.bgLoop = true → p.bgLoop = true)
+  (p'.bgLoop = true → p.bgLoop = true) ∧ (p' = .x0 → p = .x0) ∧ (p.holding = true → p'.holding = true)
 
 /-- how the program counter may change without touching the per-thread invariant -/
 def PC.FrameOK (p p' : PC) : Prop :=
@@ -266,11 +346,12 @@ instance (p p' : PC) : Decidable (PC.FrameOK p p') := by unfold PC.FrameOK; infe
 /-- a step that changes only the program counter -/
 theorem ThrOK.setPc' {s : St} {t : Tid} {l : Loc} {p : PC} (p' : PC) (h : ThrOK s t l) (hp : l.pc = p)
     (ok : PC.FrameOK0 p p')
-    (kw : l.hasSeq = true → (s.cells l.seq).ready = true → s.popper l.seq = some t → p'.waiting = true)
+    (kw : l.hasSeq = true → (s.cells l.seq).ready = true → s.popper l.seq = some t →
+      p'.waiting = true ∨ l.raising = true)
     (kd : l.hasSeq = true → p'.inServe = true → l.dl = (s.cells l.seq).ttl) :
     ThrOK s t { l with pc := p' } := by
   subst hp
-  obtain ⟨k1, k2, k3, k4, k5, k6, k7, k8, k11, k12⟩ := ok
+  obtain ⟨k1, k2, k3, k4, k5, k6, k7, k8, k11, k12, k13, k14⟩ := ok
   have hs : ({ l with pc := p' } : Loc).hasSeq = true → l.hasSeq = true := by
     simp only [hasSeq_iff]
     exact fun ⟨a, b⟩ => ⟨a, fun c => b (k2 c)⟩
@@ -288,6 +369,8 @@ theorem ThrOK.setPc' {s : St} {t : Tid} {l : Loc} {p : PC} (p' : PC) (h : ThrOK 
     seq_issued := fun a => h.seq_issued (hs a)
     at_c1 := fun a b => h.at_c1 (hs a) (k3 b)
     at_c2 := fun a b => h.at_c2 (hs a) (k4 b)
+    raising_pc := fun a => k14 (h.raising_pc a)
+    nodata := fun a => h.nodata (a.imp k13 id)
     cb_pc := fun q a => by have := h.cb_pc q a; simpa only [k6] using this
     completing := fun a => by
       have a' : l.pc.completing = true := by rw [← k6]; exact a
@@ -303,7 +386,7 @@ theorem ThrOK.setPc' {s : St} {t : Tid} {l : Loc} {p : PC} (p' : PC) (h : ThrOK 
 /-- a step that changes only the program counter, within the same class -/
 theorem ThrOK.setPc {s : St} {t : Tid} {l : Loc} {p : PC} (p' : PC) (h : ThrOK s t l) (hp : l.pc = p)
     (ok : PC.FrameOK p p') : ThrOK s t { l with pc := p' } :=
-  h.setPc' p' hp ok.1 (fun a b c => ok.2.1 (hp ▸ h.self_dispatch a b c))
+  h.setPc' p' hp ok.1 (fun a b c => (h.self_dispatch a b c).imp (fun w => ok.2.1 (hp ▸ w)) id)
     (fun a b => h.dl_ttl a (hp ▸ ok.2.2 b))
 
 theorem setPc_hasSeq {l : Loc} {p p' : PC} (hp : l.pc = p) (ok : PC.FrameOK0 p p') :
@@ -320,8 +403,10 @@ theorem setPc_hasSeq' {l : Loc} (p' : PC) (hp : l.pc ≠ .idle) :
 
 /-- `serve()` returns -/
 theorem thrOK_leaveServe {s : St} {t : Tid} {l : Loc} (h0 : l.nowait = true → l.bg = true)
+    (hr : l.raising = false)
     (h1 : l.bg = false → l.seq ∈ s.issued)
-    (h2 : ∀ e o, l.result = some (.value e o) → ∃ e' v, s.answer l.seq = some (e', v) ∧ e = some e' ∧ o = some v) :
+    (h2 : ∀ e o, l.result = some (.value e o) → ∃ e' v, s.answer l.seq = some (e', v) ∧ e = some e' ∧ o = some v ∧
+      (s.cells l.seq).ready = true) :
     ThrOK s t (leaveServe l) := by
   cases hn : l.nowait <;> cases hb : l.bg
   case true.false => have := h0 hn; rw [hb] at this; cases this
@@ -331,6 +416,8 @@ theorem thrOK_leaveServe {s : St} {t : Tid} {l : Loc} (h0 : l.nowait = true → 
     seq_issued := fun a => h1 ((hasSeq_iff _).1 a).1
     at_c1 := by simp [leaveServe, afterServe, hn, hb]
     at_c2 := by simp [leaveServe, afterServe, hn, hb]
+    raising_pc := by simp [leaveServe, hr]
+    nodata := by simp [leaveServe]
     cb_pc := by simp [leaveServe]
     completing := by simp [leaveServe, afterServe, hn, hb, PC.completing]
     data_answer := by simp [leaveServe]
@@ -340,9 +427,9 @@ theorem thrOK_leaveServe {s : St} {t : Tid} {l : Loc} (h0 : l.nowait = true → 
     dl_ttl := by simp [leaveServe, afterServe, hn, hb, PC.inServe, Loc.hasSeq]
     wdl_le := by simp [leaveServe, afterServe, hn, hb] }
 
-theorem ThrOK.leaveServe {s : St} {t : Tid} {l : Loc} (h : ThrOK s t l) (hp : l.pc ≠ .idle) :
-    ThrOK s t (leaveServe l) :=
-  thrOK_leaveServe (fun hn => (h.nowait_ok hn).1) (fun hb => h.seq_issued ((hasSeq_iff l).2 ⟨hb, hp⟩)) h.result_ok
+theorem ThrOK.leaveServe {s : St} {t : Tid} {l : Loc} (h : ThrOK s t l) (hp : l.pc ≠ .idle)
+    (hr : l.raising = false) : ThrOK s t (leaveServe l) :=
+  thrOK_leaveServe (fun hn => (h.nowait_ok hn).1) hr (fun hb => h.seq_issued ((hasSeq_iff l).2 ⟨hb, hp⟩)) h.result_ok
 
 theorem leaveServe_hasSeq {l : Loc} (hp : l.pc ≠ .idle) :
     (leaveServe l).hasSeq = true → l.hasSeq = true ∧ (leaveServe l).seq = l.seq := by
@@ -351,7 +438,55 @@ theorem leaveServe_hasSeq {l : Loc} (hp : l.pc ≠ .idle) :
 
 /-! ### steps that change the shared state -/
 
-/-- what another thread's part of the invariant needs from a change of the shared state -/
+/-- what a thread's part of the invariant needs from a change of the shared state (general form) -/
+theorem ThrOK.transfer' {s s' : St} {u : Tid} {l : Loc} (h : ThrOK s u l)
+    (h_iss : ∀ q ∈ s.issued, q ∈ s'.issued)
+    (h_c1 : l.hasSeq = true → l.pc = .c1 → freshSeq s l.seq → freshSeq s' l.seq)
+    (h_c2 : l.hasSeq = true → l.pc = .c2 → s'.closed = false → s.closed = false ∧
+      (s.answer l.seq = none → l.seq ∉ s.outstanding → s'.answer l.seq = none ∧ l.seq ∉ s'.outstanding))
+    (h_pop : ∀ q, s.popper q = some u → (s.cells q).reg = false → s'.popper q = some u ∧
+      s'.completions q = s.completions q ∧
+      (s'.cells q).reg = (s.cells q).reg ∧ (s'.cells q).ready = (s.cells q).ready ∧
+      (s'.cells q).isExc = (s.cells q).isExc ∧ (s'.cells q).obj = (s.cells q).obj)
+    (h_data : ∀ f : Frame, s.answer f.seq = some (f.exc, f.val) ∨ (s.cells f.seq).eofed = true →
+      s'.answer f.seq = some (f.exc, f.val) ∨ (s'.cells f.seq).eofed = true)
+    (h_res : ∀ x, s.answer l.seq = some x → (s.cells l.seq).ready = true → s'.answer l.seq = some x)
+    (h_rdy : (s.cells l.seq).ready = true → (s'.cells l.seq).ready = true)
+    (h_self : l.hasSeq = true → (s'.cells l.seq).ready = true → s'.popper l.seq = some u →
+      ((s.cells l.seq).ready = true ∧ s.popper l.seq = some u) ∨ l.raising = true)
+    (h_ttl : l.hasSeq = true → l.pc.inServe = true → (s'.cells l.seq).ttl = (s.cells l.seq).ttl)
+    (h_now : s.now ≤ s'.now) : ThrOK s' u l where
+  bg_pc := h.bg_pc
+  nowait_ok := h.nowait_ok
+  seq_issued := fun a => h_iss _ (h.seq_issued a)
+  at_c1 := fun a b => h_c1 a b (h.at_c1 a b)
+  at_c2 := fun a b c => by
+    obtain ⟨c', k⟩ := h_c2 a b c
+    exact k (h.at_c2 a b c').1 (h.at_c2 a b c').2
+  raising_pc := h.raising_pc
+  nodata := h.nodata
+  cb_pc := h.cb_pc
+  completing := fun a => by
+    obtain ⟨q, f, c1, c2, c3, c4, c5, c6, c7, c8, c9⟩ := h.completing a
+    obtain ⟨p1, p2, p3, p4, p5, p6⟩ := h_pop q c4 c5
+    exact ⟨q, f, c1, c2, c3, p1, by rw [p3]; exact c5, by rw [p2]; exact c6, by rw [p4]; exact c7,
+      fun x => by rw [p5]; exact c8 x, fun x => by rw [p6]; exact c9 x⟩
+  data_answer := fun f a => h_data f (h.data_answer f a)
+  at_w10 := fun a b => h_rdy (h.at_w10 a b)
+  result_ok := fun e o a => by
+    obtain ⟨e', v, r1, r2, r3, r4⟩ := h.result_ok e o a
+    exact ⟨e', v, h_res _ r1 r4, r2, r3, h_rdy r4⟩
+  self_dispatch := fun a b c => by
+    rcases h_self a b c with ⟨x, y⟩ | x
+    · exact h.self_dispatch a x y
+    · exact .inr x
+  dl_ttl := fun a b => by rw [h_ttl a b]; exact h.dl_ttl a b
+  wdl_le := fun a d hd => by
+    obtain ⟨w, hw, hle⟩ := h.wdl_le a d hd
+    exact ⟨w, hw, le_max_mono h_now hle⟩
+
+/-- what another thread's part of the invariant needs from a change of the shared state in which answers and
+`eofed` marks stay and `closed` is the same -/
 theorem ThrOK.transfer {s s' : St} {u : Tid} {l : Loc} (h : ThrOK s u l)
     (h_iss : ∀ q ∈ s.issued, q ∈ s'.issued)
     (h_c1 : l.hasSeq = true → l.pc = .c1 → freshSeq s l.seq → freshSeq s' l.seq)
@@ -365,30 +500,11 @@ theorem ThrOK.transfer {s s' : St} {u : Tid} {l : Loc} (h : ThrOK s u l)
     (h_self : l.hasSeq = true → (s'.cells l.seq).ready = true → s'.popper l.seq = some u →
       (s.cells l.seq).ready = true ∧ s.popper l.seq = some u)
     (h_ttl : l.hasSeq = true → l.pc.inServe = true → (s'.cells l.seq).ttl = (s.cells l.seq).ttl)
-    (h_now : s.now ≤ s'.now) : ThrOK s' u l where
-  bg_pc := h.bg_pc
-  nowait_ok := h.nowait_ok
-  seq_issued := fun a => h_iss _ (h.seq_issued a)
-  at_c1 := fun a b => h_c1 a b (h.at_c1 a b)
-  at_c2 := fun a b => h_c2 a b (h.at_c2 a b).1 (h.at_c2 a b).2
-  cb_pc := h.cb_pc
-  completing := fun a => by
-    obtain ⟨q, f, c1, c2, c3, c4, c5, c6, c7, c8, c9⟩ := h.completing a
-    obtain ⟨p1, p2, p3, p4, p5, p6⟩ := h_pop q c4
-    exact ⟨q, f, c1, c2, c3, p1, by rw [p3]; exact c5, by rw [p2]; exact c6, by rw [p4]; exact c7,
-      fun x => by rw [p5]; exact c8 x, fun x => by rw [p6]; exact c9 x⟩
-  data_answer := fun f a => h_ans _ _ (h.data_answer f a)
-  at_w10 := fun a b => h_rdy (h.at_w10 a b)
-  result_ok := fun e o a => by
-    obtain ⟨e', v, r1, r2, r3⟩ := h.result_ok e o a
-    exact ⟨e', v, h_ans _ _ r1, r2, r3⟩
-  self_dispatch := fun a b c => by
-    obtain ⟨x, y⟩ := h_self a b c
-    exact h.self_dispatch a x y
-  dl_ttl := fun a b => by rw [h_ttl a b]; exact h.dl_ttl a b
-  wdl_le := fun a d hd => by
-    obtain ⟨w, hw, hle⟩ := h.wdl_le a d hd
-    exact ⟨w, hw, le_max_mono h_now hle⟩
+    (h_now : s.now ≤ s'.now) (h_closed : s'.closed = s.closed)
+    (h_eofed : ∀ q, (s.cells q).eofed = true → (s'.cells q).eofed = true) : ThrOK s' u l :=
+  h.transfer' h_iss h_c1 (fun a b c => ⟨h_closed ▸ c, h_c2 a b⟩) (fun q a _ => h_pop q a)
+    (fun _ x => x.imp (h_ans _ _) (h_eofed _)) (fun x a _ => h_ans _ x a) h_rdy
+    (fun a b c => .inl (h_self a b c)) h_ttl h_now
 
 /-- the shared state changed only at seq `q` (its cell, its popper, its completion count) -/
 theorem GlobOK.updAt {s s' : St} (h : GlobOK s) (q : Seq)
@@ -402,7 +518,9 @@ theorem GlobOK.updAt {s s' : St} (h : GlobOK s) (q : Seq)
     (hexc : ∀ e, (s'.cells q).isExc = some e → ∃ v, s.answer q = some (e, v))
     (hcompl : s'.completions q ≤ 1)
     (hrdy : (s'.cells q).ready = true →
-      s'.completions q = 1 ∧ (s'.cells q).obj.isSome = true ∧ (s'.cells q).isExc.isSome = true) :
+      s'.completions q = 1 ∧ (s'.cells q).obj.isSome = true ∧ (s'.cells q).isExc.isSome = true)
+    (heof : (s'.cells q).eofed = (s.cells q).eofed)
+    (heofr : (s'.cells q).eofed = true → (s'.cells q).ready = true) :
     GlobOK s' where
   issued_lt := by simpa only [e_iss, e_cnt] using h.issued_lt
   issued_nodup := by simpa only [e_iss] using h.issued_nodup
@@ -417,7 +535,16 @@ theorem GlobOK.updAt {s s' : St} (h : GlobOK s) (q : Seq)
     by_cases hr : r = q
     · subst hr; exact hreg
     · simpa only [e_cells r hr, e_pop r hr, e_compl r hr] using h.reg_clean r
-  chan_answer := by simpa only [e_chan, e_ans] using h.chan_answer
+  chan_answer := fun f hf => by
+    rw [e_ans]
+    refine (h.chan_answer f (e_chan ▸ hf)).imp id (fun x => ?_)
+    by_cases hr : f.seq = q
+    · rw [hr] at x ⊢; rw [heof]; exact x
+    · rw [e_cells _ hr]; exact x
+  eofed_ready := fun r => by
+    by_cases hr : r = q
+    · subst hr; exact heofr
+    · simpa only [e_cells r hr] using h.eofed_ready r
   obj_answer := fun r => by
     by_cases hr : r = q
     · subst hr; simpa only [e_ans] using hobj
@@ -459,6 +586,12 @@ theorem setCell_obj_of (s : St) (q : Seq) (c : Cell) (r : Seq) (hc : c.obj = (s.
   · rename_i e; subst e; exact hc
   · rfl
 
+theorem setCell_eofed_of (s : St) (q : Seq) (c : Cell) (r : Seq) (hc : c.eofed = (s.cells q).eofed) :
+    ((setCell s q c).cells r).eofed = (s.cells r).eofed := by
+  rw [setCell_cells]; split
+  · rename_i e; subst e; exact hc
+  · rfl
+
 theorem setCell_ttl_of (s : St) (q : Seq) (c : Cell) (r : Seq) (hc : c.ttl = (s.cells q).ttl) :
     ((setCell s q c).cells r).ttl = (s.cells r).ttl := by
   rw [setCell_cells]; split
@@ -489,10 +622,17 @@ theorem ThrOK.other_completing {s s' : St} {t u : Tid} {l : Loc} {q : Seq} (h : 
     (e_pop : s'.popper = s.popper) (e_now : s'.now = s.now)
     (e_cells : ∀ r, r ≠ q → s'.cells r = s.cells r) (e_compl : ∀ r, r ≠ q → s'.completions r = s.completions r)
     (e_rdy : (s.cells q).ready = true → (s'.cells q).ready = true)
-    (e_ttl : (s'.cells q).ttl = (s.cells q).ttl) : ThrOK s' u l := by
+    (e_ttl : (s'.cells q).ttl = (s.cells q).ttl) (e_closed : s'.closed = s.closed)
+    (e_eof : (s'.cells q).eofed = (s.cells q).eofed) : ThrOK s' u l := by
   have hne : ∀ r, s.popper r = some u → r ≠ q := fun r hr e => by
     subst e; rw [hpop] at hr; cases hr; exact hu rfl
   refine h.transfer (fun _ x => e_iss ▸ x) ?_ ?_ ?_ (fun _ _ x => e_ans ▸ x) ?_ ?_ ?_ (e_now ▸ Nat.le_refl _)
+    e_closed ?_
+  rotate_right
+  · intro r x
+    by_cases e : r = q
+    · rw [e] at x ⊢; rw [e_eof]; exact x
+    · rw [e_cells _ e]; exact x
   · intro _ _ fr
     have : l.seq ≠ q := fun e => by
       have := fr.2.2.2.1
@@ -517,23 +657,23 @@ theorem ThrOK.other_completing {s s' : St} {t u : Tid} {l : Loc} {q : Seq} (h : 
     · rw [e]; exact e_ttl
     · rw [e_cells _ e]
 
-/-- `raising` is not mentioned by the invariant -/
-theorem ThrOK.setRaising {s : St} {t : Tid} {l : Loc} (b : Bool) (h : ThrOK s t l) :
-    ThrOK s t { l with raising := b } :=
-  ⟨h.bg_pc, h.nowait_ok, h.seq_issued, h.at_c1, h.at_c2, h.cb_pc, h.completing, h.data_answer, h.at_w10, h.result_ok,
-    h.self_dispatch, h.dl_ttl, h.wdl_le⟩
-
 /-- the thread becomes an idle client: nothing is claimed about it except its result -/
 theorem thrOK_idle {s : St} {t : Tid} {l l' : Loc} (h : ThrOK s t l) (hpc : l'.pc = .idle) (hbg : l'.bg = false)
-    (hnw : l'.nowait = false)
+    (hnw : l'.nowait = false) (hra : l'.raising = false)
     (hcb : l'.cb = none) (hdata : l'.data = l.data) (hseq : l'.seq = l.seq)
-    (hr : ∀ e o, l'.result = some (.value e o) → ∃ e' v, s.answer l.seq = some (e', v) ∧ e = some e' ∧ o = some v) :
+    (hr : ∀ e o, l'.result = some (.value e o) → ∃ e' v, s.answer l.seq = some (e', v) ∧ e = some e' ∧ o = some v ∧
+      (s.cells l.seq).ready = true) :
     ThrOK s t l' where
   bg_pc := fun a => by rw [hbg] at a; cases a
   nowait_ok := fun a => by rw [hnw] at a; cases a
   seq_issued := fun a => absurd hpc ((hasSeq_iff _).1 a).2
   at_c1 := fun _ b => by rw [hpc] at b; cases b
   at_c2 := fun _ b => by rw [hpc] at b; cases b
+  raising_pc := fun a => by rw [hra] at a; cases a
+  nodata := fun a => by
+    rcases a with a | a
+    · rw [hpc] at a; cases a
+    · rw [hra] at a; cases a
   cb_pc := fun q a => by rw [hcb] at a; cases a
   completing := fun a => by rw [hpc] at a; cases a
   data_answer := fun f a => h.data_answer f (hdata ▸ a)
@@ -553,6 +693,7 @@ theorem GlobOK.clearReg {s s' : St} (h : GlobOK s)
   have hobj : ∀ r, (s'.cells r).obj = (s.cells r).obj := fun r => by rcases e_cells r with e | e <;> rw [e]
   have hexc : ∀ r, (s'.cells r).isExc = (s.cells r).isExc := fun r => by rcases e_cells r with e | e <;> rw [e]
   have hrdy : ∀ r, (s'.cells r).ready = (s.cells r).ready := fun r => by rcases e_cells r with e | e <;> rw [e]
+  have heof : ∀ r, (s'.cells r).eofed = (s.cells r).eofed := fun r => by rcases e_cells r with e | e <;> rw [e]
   have hreg : ∀ r, (s'.cells r).reg = true → (s.cells r).reg = true := fun r x => by
     rcases e_cells r with e | e <;> rw [e] at x
     · exact x
@@ -572,7 +713,8 @@ theorem GlobOK.clearReg {s s' : St} (h : GlobOK s)
       exact ⟨by rw [e_ans]; exact a, Nat.lt_of_lt_of_le b e_cnt⟩
     reg_clean := fun r x => by
       rw [e_pop, e_compl, hrdy]; exact h.reg_clean r (hreg r x)
-    chan_answer := fun f hf => by rw [e_ans]; exact h.chan_answer f (e_chan ▸ hf)
+    chan_answer := fun f hf => by rw [e_ans, heof]; exact h.chan_answer f (e_chan ▸ hf)
+    eofed_ready := fun r x => by rw [hrdy]; exact h.eofed_ready r ((heof r).symm.trans x)
     obj_answer := fun r v x => by rw [e_ans]; exact h.obj_answer r v ((hobj r).symm.trans x)
     exc_answer := fun r e x => by rw [e_ans]; exact h.exc_answer r e ((hexc r).symm.trans x)
     compl_le := fun r => by rw [e_compl]; exact h.compl_le r
@@ -582,13 +724,15 @@ theorem GlobOK.clearReg {s s' : St} (h : GlobOK s)
 theorem ThrOK.clearReg {s s' : St} {u : Tid} {l : Loc} (h : ThrOK s u l) (g : GlobOK s)
     (e_iss : s'.issued = s.issued) (e_out : s'.outstanding = s.outstanding) (e_ans : s'.answer = s.answer)
     (e_pop : s'.popper = s.popper) (e_compl : s'.completions = s.completions) (e_now : s'.now = s.now)
+    (e_closed : s'.closed = s.closed)
     (e_cells : ∀ r, s'.cells r = s.cells r ∨ s'.cells r = { s.cells r with reg := false }) : ThrOK s' u l := by
+  have heof : ∀ r, (s'.cells r).eofed = (s.cells r).eofed := fun r => by rcases e_cells r with e | e <;> rw [e]
   have hobj : ∀ r, (s'.cells r).obj = (s.cells r).obj := fun r => by rcases e_cells r with e | e <;> rw [e]
   have hexc : ∀ r, (s'.cells r).isExc = (s.cells r).isExc := fun r => by rcases e_cells r with e | e <;> rw [e]
   have hrdy : ∀ r, (s'.cells r).ready = (s.cells r).ready := fun r => by rcases e_cells r with e | e <;> rw [e]
   have httl : ∀ r, (s'.cells r).ttl = (s.cells r).ttl := fun r => by rcases e_cells r with e | e <;> rw [e]
   refine h.transfer (fun _ x => e_iss ▸ x) ?_ ?_ ?_ (fun _ _ x => e_ans ▸ x) (fun x => (hrdy _).trans x) ?_
-    (fun _ _ => httl _) (e_now ▸ Nat.le_refl _)
+    (fun _ _ => httl _) (e_now ▸ Nat.le_refl _) e_closed (fun r x => (heof r).trans x)
   · intro _ _ ⟨a, b, c, d, e⟩
     refine ⟨?_, by rw [e_ans]; exact b, by rw [e_out]; exact c, by rw [e_pop]; exact d, by rw [e_compl]; exact e⟩
     rcases e_cells l.seq with x | x
@@ -607,6 +751,184 @@ theorem ThrOK.clearReg {s s' : St} {u : Tid} {l : Loc} (h : ThrOK s u l) (g : Gl
   · intro _ a b
     rw [e_pop] at b
     exact ⟨(hrdy _).symm.trans a, b⟩
+
+/-! ### the first `close()`: every still registered request is dropped, and completed with `EOFError` unless expired -/
+
+/-- `s'` is `s` after thread `t` ran `close()` for the first time (shared part) -/
+structure CloseRel (s s' : St) (t : Tid) : Prop where
+  issued : s'.issued = s.issued
+  now : s'.now = s.now
+  chan : s'.chan = s.chan
+  closed : s'.closed = true
+  counter : s'.seqCounter = s.seqCounter + 1
+  cells : s'.cells = fun q =>
+    if (s.cells q).reg then
+      (if expiredAt (s.cells q).ttl s.now then { s.cells q with reg := false }
+       else { s.cells q with reg := false, isExc := some true, obj := some eofVal, ready := true, eofed := true })
+    else s.cells q
+  answer : s'.answer = fun q => if closePublishes s q then some (true, eofVal) else s.answer q
+  completions : s'.completions = fun q => if closePublishes s q then s.completions q + 1 else s.completions q
+  popper : s'.popper = fun q => if (s.cells q).reg then some t else s.popper q
+  outstanding : s'.outstanding = s.outstanding.filter (fun q => !closePublishes s q)
+
+/-- an unregistered request is not touched -/
+theorem CloseRel.unreg {s s' : St} {t : Tid} (c : CloseRel s s' t) {q : Seq} (hr : (s.cells q).reg = false) :
+    s'.cells q = s.cells q ∧ s'.answer q = s.answer q ∧ s'.completions q = s.completions q ∧
+    s'.popper q = s.popper q := by
+  simp [c.cells, c.answer, c.completions, c.popper, closePublishes, hr]
+
+/-- a registered, unexpired request is completed -/
+theorem CloseRel.pub {s s' : St} {t : Tid} (c : CloseRel s s' t) {q : Seq} (hc : closePublishes s q = true) :
+    s'.cells q = { s.cells q with reg := false, isExc := some true, obj := some eofVal, ready := true, eofed := true } ∧
+    s'.answer q = some (true, eofVal) ∧ s'.completions q = s.completions q + 1 ∧ s'.popper q = some t := by
+  have h1 : (s.cells q).reg = true ∧ expiredAt (s.cells q).ttl s.now = false := by
+    simpa [closePublishes] using hc
+  simp [c.cells, c.answer, c.completions, c.popper, hc, h1.1, h1.2]
+
+/-- a registered, expired request is only dropped -/
+theorem CloseRel.exp {s s' : St} {t : Tid} (c : CloseRel s s' t) {q : Seq} (hr : (s.cells q).reg = true)
+    (hc : closePublishes s q = false) :
+    s'.cells q = { s.cells q with reg := false } ∧ s'.answer q = s.answer q ∧
+    s'.completions q = s.completions q ∧ s'.popper q = some t := by
+  have h1 : expiredAt (s.cells q).ttl s.now = true := by
+    simpa [closePublishes, hr] using hc
+  simp [c.cells, c.answer, c.completions, c.popper, hc, hr, h1]
+
+theorem CloseRel.cases {s : St} (q : Seq) :
+    (s.cells q).reg = false ∨ closePublishes s q = true ∨ ((s.cells q).reg = true ∧ closePublishes s q = false) := by
+  cases hr : (s.cells q).reg
+  · exact .inl rfl
+  · cases hc : closePublishes s q
+    · exact .inr (.inr ⟨rfl, rfl⟩)
+    · exact .inr (.inl rfl)
+
+theorem closePublishes_reg {s : St} {q : Seq} (hc : closePublishes s q = true) : (s.cells q).reg = true := by
+  have : (s.cells q).reg = true ∧ expiredAt (s.cells q).ttl s.now = false := by simpa [closePublishes] using hc
+  exact this.1
+
+theorem closePublishes_false {s : St} {q : Seq} (hr : (s.cells q).reg = false) : closePublishes s q = false := by
+  simp [closePublishes, hr]
+
+theorem CloseRel.reg {s s' : St} {t : Tid} (c : CloseRel s s' t) (q : Seq) : (s'.cells q).reg = false := by
+  rcases CloseRel.cases (s := s) q with h | h | ⟨h, h'⟩
+  · rw [(c.unreg h).1]; exact h
+  · rw [(c.pub h).1]
+  · rw [(c.exp h h').1]
+
+theorem CloseRel.ttl {s s' : St} {t : Tid} (c : CloseRel s s' t) (q : Seq) : (s'.cells q).ttl = (s.cells q).ttl := by
+  rcases CloseRel.cases (s := s) q with h | h | ⟨h, h'⟩
+  · rw [(c.unreg h).1]
+  · rw [(c.pub h).1]
+  · rw [(c.exp h h').1]
+
+theorem CloseRel.mem_out {s s' : St} {t : Tid} (c : CloseRel s s' t) {q : Seq} (hq : q ∈ s'.outstanding) :
+    q ∈ s.outstanding ∧ closePublishes s q = false := by
+  rw [c.outstanding] at hq
+  obtain ⟨a, b⟩ := List.mem_filter.1 hq
+  exact ⟨a, by simpa using b⟩
+
+theorem CloseRel.fresh {s s' : St} {t : Tid} (c : CloseRel s s' t) {q : Seq} (h : freshSeq s q) : freshSeq s' q := by
+  have hr : (s.cells q).reg = false := by rw [h.1]
+  obtain ⟨e1, e2, e3, e4⟩ := c.unreg hr
+  exact freshSeq_of_eq h e1 e2 (fun x => (c.mem_out x).1) e4 e3
+
+/-- frames: an answer stays, or the request is now marked `eofed` -/
+theorem CloseRel.frame {s s' : St} {t : Tid} (c : CloseRel s s' t) (g : GlobOK s) (f : Frame)
+    (h : s.answer f.seq = some (f.exc, f.val) ∨ (s.cells f.seq).eofed = true) :
+    s'.answer f.seq = some (f.exc, f.val) ∨ (s'.cells f.seq).eofed = true := by
+  rcases CloseRel.cases (s := s) f.seq with k | k | ⟨k, k'⟩
+  · obtain ⟨e1, e2, _, _⟩ := c.unreg k
+    rw [e1, e2]; exact h
+  · right; rw [(c.pub k).1]
+  · rcases h with h | h
+    · left; rw [(c.exp k k').2.1]; exact h
+    · rw [g.eofed_unreg _ h] at k; cases k
+
+theorem GlobOK.close {s s' : St} {t : Tid} (h : GlobOK s) (c : CloseRel s s' t) : GlobOK s' where
+  issued_lt := fun q hq => by
+    rw [c.counter]; exact Nat.lt_succ_of_lt (h.issued_lt q (c.issued ▸ hq))
+  issued_nodup := c.issued ▸ h.issued_nodup
+  fresh := fun q hq => by
+    rw [c.counter] at hq
+    exact c.fresh (h.fresh q (Nat.le_of_succ_le hq))
+  out_nodup := by rw [c.outstanding]; exact List.Pairwise.filter _ h.out_nodup
+  out_unanswered := fun q hq => by
+    obtain ⟨a, b⟩ := c.mem_out hq
+    obtain ⟨x, y⟩ := h.out_unanswered q a
+    refine ⟨?_, by rw [c.counter]; exact Nat.lt_succ_of_lt y⟩
+    simp only [c.answer, b]
+    exact x
+  reg_clean := fun q hq => by rw [c.reg q] at hq; cases hq
+  chan_answer := fun f hf => c.frame h f (h.chan_answer f (c.chan ▸ hf))
+  eofed_ready := fun q hq => by
+    rcases CloseRel.cases (s := s) q with k | k | ⟨k, k'⟩
+    · rw [(c.unreg k).1] at hq ⊢; exact h.eofed_ready q hq
+    · rw [(c.pub k).1]
+    · rw [(c.exp k k').1] at hq
+      have : (s.cells q).eofed = true := hq
+      rw [h.eofed_unreg _ this] at k; cases k
+  obj_answer := fun q v hv => by
+    rcases CloseRel.cases (s := s) q with k | k | ⟨k, k'⟩
+    · obtain ⟨e1, e2, _, _⟩ := c.unreg k
+      rw [e1] at hv; rw [e2]; exact h.obj_answer q v hv
+    · obtain ⟨e1, e2, _, _⟩ := c.pub k
+      rw [e1] at hv
+      cases hv
+      exact ⟨true, e2⟩
+    · obtain ⟨e1, e2, _, _⟩ := c.exp k k'
+      rw [e1] at hv; rw [e2]; exact h.obj_answer q v hv
+  exc_answer := fun q e he => by
+    rcases CloseRel.cases (s := s) q with k | k | ⟨k, k'⟩
+    · obtain ⟨e1, e2, _, _⟩ := c.unreg k
+      rw [e1] at he; rw [e2]; exact h.exc_answer q e he
+    · obtain ⟨e1, e2, _, _⟩ := c.pub k
+      rw [e1] at he
+      cases he
+      exact ⟨eofVal, e2⟩
+    · obtain ⟨e1, e2, _, _⟩ := c.exp k k'
+      rw [e1] at he; rw [e2]; exact h.exc_answer q e he
+  compl_le := fun q => by
+    rcases CloseRel.cases (s := s) q with k | k | ⟨k, k'⟩
+    · rw [(c.unreg k).2.2.1]; exact h.compl_le q
+    · rw [(c.pub k).2.2.1, (h.reg_clean q (closePublishes_reg k)).2.1]; exact Nat.le_refl _
+    · rw [(c.exp k k').2.2.1]; exact h.compl_le q
+  ready_compl := fun q hq => by
+    rcases CloseRel.cases (s := s) q with k | k | ⟨k, k'⟩
+    · obtain ⟨e1, _, e3, _⟩ := c.unreg k
+      rw [e1] at hq ⊢; rw [e3]; exact h.ready_compl q hq
+    · obtain ⟨e1, _, e3, _⟩ := c.pub k
+      rw [e1, e3, (h.reg_clean q (closePublishes_reg k)).2.1]
+      exact ⟨rfl, rfl, rfl⟩
+    · rw [(c.exp k k').1] at hq
+      have : (s.cells q).ready = true := hq
+      rw [(h.reg_clean q k).2.2] at this; cases this
+
+/-- every thread's part survives the first `close()` by `t` (for `t` itself: it is `raising` afterwards) -/
+theorem ThrOK.close {s s' : St} {t u : Tid} {l : Loc} (h : ThrOK s u l) (g : GlobOK s) (c : CloseRel s s' t)
+    (hself : u = t → l.raising = true) : ThrOK s' u l := by
+  refine h.transfer' (fun _ x => c.issued ▸ x) (fun _ _ fr => c.fresh fr) ?_ ?_ (c.frame g) ?_ ?_ ?_
+    (fun _ _ => c.ttl _) (c.now ▸ Nat.le_refl _)
+  · intro _ _ x
+    rw [c.closed] at x; cases x
+  · intro q hq hr
+    obtain ⟨e1, _, e3, e4⟩ := c.unreg hr
+    rw [e1, e3, e4]
+    exact ⟨hq, rfl, rfl, rfl, rfl, rfl⟩
+  · intro x hx hr
+    rw [(c.unreg (g.unreg_of_ready hr)).2.1]; exact hx
+  · intro hr
+    rw [(c.unreg (g.unreg_of_ready hr)).1]; exact hr
+  · intro _ a b
+    cases k : (s.cells l.seq).reg with
+    | false =>
+      obtain ⟨e1, _, _, e4⟩ := c.unreg k
+      rw [e1] at a; rw [e4] at b
+      exact .inl ⟨a, b⟩
+    | true =>
+      have : s'.popper l.seq = some t := by simp [c.popper, k]
+      rw [this] at b
+      cases b
+      exact .inr (hself rfl)
 
 /-- assemble `InvS'` after a step of thread `t` in which no thread acquires a sequence number -/
 theorem InvS'.step' {s s' : St} (t : Tid) (l' : Loc) (h : InvS' s) (hl : s'.loc = (setLoc s t l').loc)
